@@ -165,3 +165,6 @@ func giantBuffer() *rjson.Buffer {
 	}
 	return giantBuf
 }
+
+// U spells a JSON unicode escape (written this way so that no tool in between can decode it).
+func U(hex4 string) string { return "\\u" + hex4 }
